@@ -240,6 +240,10 @@ def _mk(rf):
     """rf -> SReal (collapsing constants, degrading oversized forms to an opaque atom)."""
     if P.rf_is_const(rf):
         return SReal(P.p_const_value(rf[0]))
+    if rf[1] != P.P_ONE and P.rf_size(rf) >= P.CANCEL_MIN:
+        rf = P.rf_cancel(rf)
+        if P.rf_is_const(rf):
+            return SReal(P.p_const_value(rf[0]))
     if P.rf_size(rf) > P.SIZE_LIMIT:
         zt = Sym(rf).z()
         return SReal(Sym((P.p_atom(P.atom_for_opaque(zt)), P.P_ONE), zt))
@@ -668,13 +672,22 @@ def sqrt(x):
     if key in cache:
         return cache[key]
     CTX.keep.append(zt)
-    sv = CTX.fresh("sqrt")
-    rad = _rf_of(v) if not isinstance(v, Sym) or v.rf is not None else None
+    rad = v.rf if isinstance(v, Sym) else _rf_of(v)
     if rad is None:
         rad = (P.p_atom(P.atom_for_opaque(zt)), P.P_ONE)
+    den = None
+    if rad[1] != P.P_ONE:
+        # sqrt(N/D) = sqrt(N*D)/|D|: keeps every radicand a polynomial so that s*s rewrites away
+        D = SReal(Sym((rad[1], P.P_ONE)))
+        sd = D.sign_concrete()
+        den = D if sd > 0 else -D
+        rad = (P.p_mul(rad[0], rad[1]), P.P_ONE)
+    sv = CTX.fresh("sqrt")
     i = P.atom_for_gsqrt(sv, rad)
     r = SReal(Sym((P.p_atom(i), P.P_ONE), sv))
     r.z()      # declares the atom on this path
+    if den is not None:
+        r = r / den
     cache[key] = r
     return r
 
